@@ -15,11 +15,11 @@ CORE_NOTE = ("Trusted: the kernel's epoll/eventfd semantics, the harness' instru
 CLAIMED = {
     "C01": ("TLA+ contract monitor (LoopContract) checked by TLC on LoopCore's bounded state space and on traces of the real crate (TLC trace validation); scenarios from TLC behaviours + seeded generator",
             "Bounded model checking of the slot/generation/sub-token design plus trace validation of real executions: every callback invocation of every recorded execution is attributed to a live registration and a real cause by the TLA+ monitor.", "4/C01", CORE_NOTE),
-    "C02": ("TLA+ contract monitor: pending-cause set sampled at the wait, checked at the end of each Ok dispatch, by TLC on LoopCore and on real traces",
+    "C02": ("TLA+ contract monitor: pending-cause set sampled at the wait, checked at the end of each Ok dispatch, by TLC on LoopCore and on real traces; plus generated channel schedules of real threads under the step scheduler (a message queued by a blocked sender is a pending cause)",
             "Model checking + trace validation: the set of sources with a pending cause when the wait starts is computed by the monitor from the driver's own actions and compared with the callbacks of that dispatch.", "4/C02", CORE_NOTE),
     "C05": ("TLA+ contract monitor for timer armings (never early / order / once per arming / cancel final / heap residue) on LoopCore and on real traces",
             "Model checking + trace validation with integer microsecond time; arming identities are ghost state of the monitor.", "4/C05", CORE_NOTE),
-    "C06": ("TLA+ contract monitor: token liveness, drop counters, slot occupancy; TLC on LoopCore and on real traces",
+    "C06": ("TLA+ contract monitor: token liveness, drop counters, slot occupancy, nothing left behind by a removed source; TLC on LoopCore and on real traces; supplement: inductive invariant of the slot/generation rule at 16-bit width discharged by Apalache (SlotListApalache.tla)",
             "Model checking + trace validation: every token ever issued is tracked by the monitor; drops are observed through Drop impls of the instrumented sources and callbacks.", "4/C06", CORE_NOTE),
     "C07": ("TLA+ contract monitor: enabled flag per source, isolation of disable/enable, retention via the C02 clauses; TLC on LoopCore and real traces",
             "Model checking + trace validation.", "4/C07", CORE_NOTE),
@@ -45,8 +45,8 @@ CLAIMED.update({
             "Model checking of every interleaving of the ping protocol for the configured scripts + schedule replay on real eventfds + trace validation.", "4/C03", CONC_NOTE),
     "C04": ("TLA+ contract ConcContract (order / exactly-once / single Closed / no stranded message / blocking send completes) validated by TLC on traces of real threads driven by the step scheduler (seeded schedules); sequential histories through LoopContract",
             "Trace validation by TLC of scheduled executions of channel() and sync_channel(0,1,2) with batch limits 1..3 and at the real limit.", "4/C04", CONC_NOTE),
-    "C10": ("TLA+ contract ConcContract (no lost wake, loop-thread-only polls and drops, exactly-once results) validated by TLC on traces of real waker threads against the loop under the step scheduler",
-            "Trace validation by TLC of scheduled executions of the executor with manual futures.", "4/C10", CONC_NOTE),
+    "C10": ("TLA+ protocol model ExecProto (enqueue / notified swap / eventfd write / flag clear / dequeue steps) model-checked by TLC, its schedules and the TLC attack schedule of the wrong variant replayed on real waker threads under the step scheduler; executor and StreamSource kinds of LoopCore (run queue, notified flag, batch limit with self re-ping, futures dropped with the executor; stream polled until Pending) model-checked and their behaviours replayed event for event; all traces validated by TLC against ConcContract / LoopContract",
+            "Model checking of the wake protocol for the configured scripts and of executor/stream histories (schedule, wake, complete, disable, enable, remove, re-insert, scheduling from callbacks and futures, batch limits 1..3 through the hook) + schedule replay + trace validation.", "4/C10", CONC_NOTE),
     "C11": ("TLA+ contract ConcContract (run() returns after stop+wakeup within one iteration, never without stop; block_on result) validated by TLC on traces with real blocking waits under the step scheduler",
             "Trace validation by TLC of scheduled executions of run()/block_on() with real epoll waits; a wait that does not return within the watchdog is recorded as stuck.", "4/C11", CONC_NOTE),
     "C18": ("TLA+ transcription of transient.rs (Transient.tla) model-checked exhaustively by TLC; an edge cover of the reachable graph (every state x call) is replayed on the real TransientSource inside a real loop and the recorded calls are validated by TLC against the same operators",
